@@ -8,6 +8,7 @@ Typed encoding (order- and type-preserving, survives json.dump(sort_keys=True)):
 import collections
 import datetime
 import json
+import re
 
 EXC = "insights_signature_exclude"
 SIG = "insights_signature"
@@ -22,7 +23,8 @@ def enc(x):
     type: the YAML spelling of a value is not part of the play's content."""
     if x is None:
         return ["z"]
-    if isinstance(x, bool):
+    if isinstance(x, bool) or type(x).__name__ == "ScalarBoolean":
+        # the loader turns an anchored `&a true` into ScalarBoolean, an int subclass: its content is a boolean
         return ["b", bool(x)]
     if isinstance(x, int):
         return ["i", int(x)]
@@ -40,7 +42,10 @@ def enc(x):
         return ["o", "bytes", bytes(x).hex()]
     if isinstance(x, (datetime.date, datetime.datetime)):
         return ["o", "datetime" if isinstance(x, datetime.datetime) else "date", x.isoformat()]
-    return ["o", type(x).__name__, repr(x)]
+    if type(x).__name__ == "TaggedScalar":          # `!unsafe text`: content = tag + text
+        tag = getattr(x, "tag", None)
+        return ["o", "tagged", str(getattr(tag, "value", tag)), str(getattr(x, "value", ""))]
+    return ["o", type(x).__name__, re.sub(r" at 0x[0-9a-f]+", "", str(x))]
 
 
 def dec(e, mk=dict):
@@ -349,11 +354,14 @@ def _first_diff(a, b):
     return "scalar_value_%s" % _tn(a)
 
 
+def _tn(e):
+    if e[0] == "o":
+        return "other_" + e[1]
+    return _TN.get(e[0], e[0])
+
+
 _TN = {"z": "null", "b": "bool", "i": "int", "f": "float", "s": "str", "l": "list", "m": "mapping", "o": "other", "t": "tuple"}
 
-
-def _tn(e):
-    return _TN.get(e[0], e[0])
 
 
 def _nonstr_key_types(e, acc):
